@@ -156,11 +156,13 @@ def run(tier):
          dict(deriv=1, bases=["int", "tdef", "sref"],
               squals='{<<"volatile","const">>, <<"const","volatile">>, <<"volatile","const","volatile">>}',
               ptrquals='{<<>>, <<"volatile","const">>, <<"const","volatile">>}', dims=["3"], params=["int_p"])),
+        ("typedef name as the only parameter of an abstract function declarator (6.7.6.3p11)",
+         dict(deriv=3, ctxs=["param", "typename"], bases=["int", "tdef"], dims=["3"], params=["T", "int"], ptrquals='{<<>>, <<"const">>}')),
         ("two declarators sharing specifiers, <=2 wrappers each",
          dict(deriv=2, decls=2, ctxs=["file", "block", "forinit", "member", "typedef"], bases=["int", "sdef", "edef", "tdef"],
               squals='{<<>>, <<"const">>}', dims=["3"], params=["int_p"], ptrquals='{<<>>, <<"const">>}', parens=False)),
         ("_Atomic(type-name) specifiers, one and two declarators",
-         dict(deriv=2, decls=2, bases=["atomic_int", "atomic_T", "atomic_ptr"], squals='{<<>>, <<"const">>}',
+         dict(deriv=2, decls=2, bases=["atomic_int", "atomic_T", "atomic_ptr", "atomic_fptr"], squals='{<<>>, <<"const">>}',
               dims=["3", "none"], params=["void", "int_p"], ptrquals='{<<>>, <<"const">>}')),
         ("initializers and bit-fields",
          dict(deriv=1, decls=2, ctxs=["file", "block", "forinit", "member"], bases=["int", "sref"],
@@ -187,6 +189,17 @@ def run(tier):
     ctx.cov["exhaustive"] = True
     ctx.assumptions += ["Chain in spec/CDecl.tla is C99 6.7.5.1-3 verbatim; TypeDecl.align / Typename.align are outside the projection"]
     return ctx.finish()
+
+
+def declaration_programs(ctx, rnd, n):
+    """Source texts of CDecl declarations with one and two declarators over every base (the _Atomic(type-name) ones
+    included), for checks that need ASTs with shared specifiers and copied declarator chains (C07, C14, C15)."""
+    cases = enumerate_decls(ctx, "CDecl: two declarators, all bases (population for other checks)", deriv=2, decls=2,
+                            ctxs=["file", "block", "member", "typedef"],
+                            bases=["int", "sdef", "udef", "edef", "atomic_int", "atomic_T", "atomic_ptr", "atomic_fptr"],
+                            squals='{<<>>}', dims=["3"], params=["int_p", "int_p_ell"], ptrquals='{<<>>, <<"const">>}', parens=False)
+    cases = rnd.sample(cases, min(len(cases), n))
+    return [src for c in cases for label, src, get in render(c)]
 
 
 def long_units(ctx, tier, rnd, cases):
